@@ -104,5 +104,7 @@ Definition C := Clear.
 Definition R := Reopen.
 Definition D := ExtDelete.
 Definition X := ExtReplace.
+Definition RF := ReopenFails.
+Definition CF := ClearFails.
 Definition F := Files.
 Definition N := Node.
